@@ -305,3 +305,12 @@ reg("C10", "exploration", "TLA+ law JsonOk evaluated by TLC on recorded decode /
     "and decoder, given to to_knx, and the result decoded; TLC judges: serialisable, accepted, same value.",
     "Trusted: TLC; Python equality of decoded values.",
     "DESIGN.md section 5 C10", driver="c07", entry="run10")
+
+reg("C11", "exploration", "TLA+ law SendOk (SendPath.tla: accepted => every queued telegram wire-valid; rejected => nothing queued, ConversionError for a value of the right kind) evaluated by TLC on recorded calls",
+    "Every RemoteValue class (numeric / sensor classes for every numeric value type, strings, raw lengths, scaling ranges, setpoint-shift modes), group_value_write / group_value_response "
+    "without a DPT (ints, lists, bytes, payload objects) and with DPTs, the MCP write tool, and device setters (Light, Cover, Fan, Climate, RawValue, NumericValue, ExposeSensor, "
+    "Notification) are called with ~140 values each: numbers across and beyond every range (63/64, 255/256, 2^15..2^64, negative, fractions, 1e39, inf, nan), texts, lists with octets "
+    "out of range and of 253..256 elements, and foreign arguments. The telegram queue is inspected after each call; each queued telegram is serialised the way CEMIHandler.send_telegram "
+    "does and parsed back. TLC judges each call.",
+    "Trusted: TLC; classification of the argument kind (number / text / list / foreign) per API in the driver.",
+    "DESIGN.md section 5 C11", driver="c11", entry="run")
